@@ -10,8 +10,9 @@ stage id tx feeOk <orders> <omods> <accts> <amods> <matches>
 delorder n
 updorder n <mods>          updorders <ns> <modss>          updacct k <mods>
 complete | discard | reopen | spend
-acctspend k <expiry|multisig|unknown> tx height
+acctspend k <expiry|multisig|unknown|recreate> tx height
 reconnect <err0|err1|mal|fin:tx|finw:tx> <removeOk>
+reconn <first|err|shut> <err0|err1|mal|fin:tx|finw:tx> <removeOk>
 obs
 ```
 `<orders>`/`<accts>`/`<ns>`: `_` (empty) or comma separated numbers.  `<omods>`/`<amods>`/`<modss>`: `_` or
@@ -196,10 +197,26 @@ def drvStep (db : DB) (args : List String) : DB × String :=
     | _, _ => (db, "bad-op")
   | ["acctspend", k, w, tx, h] =>
     let w? : Option Witness := if w == "expiry" then some .expiry else if w == "multisig" then some .multiSig
-      else if w == "unknown" then some .unknown else none
+      else if w == "unknown" then some .unknown else if w == "recreate" then some .multiSigRecreate else none
     match k.toNat?, w?, tx.toNat?, h.toNat? with
     | some k, some w, some tx, some h => doOp db (.accountSpend k w tx h)
     | _, _, _, _ => (db, "bad-op")
+  | ["reconn", pth, r, rm] =>
+    -- a whole (re-)connection of the real client; output: cleaner calls and error of the LAST check, number of
+    -- BatchSnapshot queries the auctioneer received
+    let p? : Option Path := if pth == "first" then some .firstConnect else if pth == "err" then some .streamError
+      else if pth == "shut" then some .shutdownNotice else none
+    match p?, rpc? r, bool? rm with
+    | some p, some r, some rm =>
+      let loadable := match pendingBatchSnapshot db with | .ok _ => true | .error _ => false
+      let noPending := match pendingBatchSnapshot db with | .error .noPending => true | _ => false
+      if p != .firstConnect && !loadable && !noPending then (db, "sub-failed") else
+      let x := reconnectVia p r rm db
+      let last := x.2.getLast?.getD ([], none)
+      -- a failing check is retried by the daemon's stream error handler (the harness allows 3 attempts in all)
+      let q := if !loadable then 0 else if p != .firstConnect && last.2.isSome then 4 else x.2.length
+      (x.1, joinOr "," (last.1.map callStr) ++ ";" ++ checkErrStr last.2 ++ s!";q={q}")
+    | _, _, _ => (db, "bad-op")
   | ["reconnect", r, rm] =>
     match rpc? r, bool? rm with
     | some r, some rm =>
